@@ -66,8 +66,18 @@ def generate(rng, tier, index):
     o = rng.derive("ops")
     nops = o.randint(3, 10 if tier == "quick" else 14)
     ops = []
+    pm = rng.derive("plant-merge")
+    if cfg.get("box") and cfg.get("collision", "none") != "none" and cfg.get("collision_resolve") == "merge" and pm.chance(0.5):
+        # a merger in the very step before a save: with a tree the victim is only flagged at that point (removal deferred to the next tree update)
+        q = cfg["particles"][pm.randint(0, len(cfg["particles"]) - 1)]
+        sz = cfg["box"]["size"]
+        rr = max(q["r"], 1e-3 * sz)
+        q["r"] = rr
+        cfg["particles"].append(dict(m=q["m"] * 0.5, x=q["x"] + 0.7 * rr * (1 if q["x"] < 0 else -1), y=q["y"], z=q["z"], vx=q["vx"] - 0.05 * sz * (1 if q["x"] < 0 else -1), vy=q["vy"], vz=q["vz"],
+                                     r=0.5 * rr, hash=2999))
+        ops += [dict(op="steps", n=1), dict(op="save", via=pm.choice(TRANSPORTS))]
     nh = [3000]
-    nsave = 0
+    nsave = sum(1 for x in ops if x["op"] == "save")
     for i in range(nops):
         k = o.weighted([("steps", 30), ("integrate", 10), ("save", 22 if nsave < 4 else 0), ("add", 5), ("remove", 5), ("sync", 5), ("set", 5), ("move", 4),
                         ("clock_jump", 4), ("energy", 3), ("auto", 4 if nsave < 4 else 0), ("switch", 3 if not cfg.get("box") else 0), ("reset_integrator", 2 if not cfg.get("box") else 0)])
